@@ -55,6 +55,24 @@ func (o *oracleC08) after(c *stepCtx) *ViolationRec {
 			}
 		}
 	}
+	// operations that only round a value cannot move its leading digit by more
+	// than one place: a result far away means the exponent wrapped or was lost
+	switch c.op.Name {
+	case "Set", "Neg", "Abs", "Copy", "SetPrec", "GobCopy", "TextCopy", "JSONCopy":
+		if c.op.Z >= 0 && !c.res.Panicked && !c.res.Failed && !c.res.Skipped {
+			src := c.op.Z
+			if len(c.op.A) > 0 {
+				src = c.op.A[0]
+			}
+			a, b := c.pre[src], c.post[c.op.Z]
+			if a.Form == 1 && b.Form == 1 && b.Exp != a.Exp && int64(b.Exp) != int64(a.Exp)+1 {
+				return &ViolationRec{Class: "exponent-moved-by-rounding", Oracle: "cross-invariant",
+					Msg: fmt.Sprintf("after %s: rounding a value with exponent %d produced a finite value with exponent %d (a result that leaves the range must be ±Inf or ±0)", opDesc(c), a.Exp, b.Exp),
+					Sig: "exponent-moved-by-rounding:" + c.op.Name}
+			}
+			o.cnt["rounding_exponent_checks"]++
+		}
+	}
 	// SetPrec(MinPrec) on a copy of the receiver is exact
 	if c.op.Z >= 0 && !c.res.Panicked && !c.res.Failed && c.post[c.op.Z].Form == 1 {
 		z := c.w.V[c.op.Z]
